@@ -136,6 +136,81 @@ fn c07_skip_roundtrip_basic() {
 }
 
 /// a posting list shorter than one block has no skip data at all
+/// K07-skip-reset: a SkipReader re-used for another term through `reset` (what
+/// `InvertedIndexReader::reset_block_postings_from_terminfo` does) is observationally a freshly
+/// opened one, wherever the previous term's reader had got to: in particular the delta-decoding base
+/// (`last_doc_in_previous_block`), byte and position offsets start again from zero.
+fn skip_reset(opt: IndexRecordOption) {
+    let (last1, last2): (u32, u32) = (kani::any(), kani::any());
+    kani::assume(last1 < last2 && last2 < TERMINATED);
+    let (nb1, nb2, tb1, tb2): (u8, u8, u8, u8) = (kani::any(), kani::any(), kani::any(), kani::any());
+    kani::assume(nb1 < 32 && nb2 < 32 && tb1 <= 32 && tb2 <= 32);
+    let mut ser = SkipSerializer { buffer: Vec::with_capacity(64) };
+    write_block(&mut ser, opt, last1, nb1, tb1, kani::any(), kani::any(), kani::any());
+    write_block(&mut ser, opt, last2, nb2, tb2, kani::any(), kani::any(), kani::any());
+    let mut rd = SkipReader::new(OwnedBytes::new(ser.buffer), 256 + 5, opt);
+    // the previous term's reader is left anywhere: first block, second block, or the VInt tail
+    let steps: u8 = kani::any();
+    if steps >= 1 {
+        rd.advance();
+    }
+    if steps >= 2 {
+        rd.advance();
+    }
+    // the next term: either a list with one full block, or a short list without skip data
+    let long_list: bool = kani::any();
+    let l3: u32 = kani::any();
+    kani::assume(l3 < TERMINATED);
+    let (nb3, tb3): (u8, u8) = (kani::any(), kani::any());
+    kani::assume(nb3 < 32 && tb3 <= 32);
+    let (ts3, f3, m3): (u32, u8, u32) = (kani::any(), kani::any(), kani::any());
+    let tail: u32 = kani::any();
+    kani::assume(tail < 128);
+    let mut ser_a = SkipSerializer { buffer: Vec::with_capacity(32) };
+    let mut ser_b = SkipSerializer { buffer: Vec::with_capacity(32) };
+    let doc_freq = if long_list {
+        write_block(&mut ser_a, opt, l3, nb3, tb3, ts3, f3, m3);
+        write_block(&mut ser_b, opt, l3, nb3, tb3, ts3, f3, m3);
+        128 + tail
+    } else {
+        tail
+    };
+    rd.reset(OwnedBytes::new(ser_a.buffer), doc_freq);
+    let fresh = SkipReader::new(OwnedBytes::new(ser_b.buffer), doc_freq, opt);
+    assert!(rd.last_doc_in_block() == fresh.last_doc_in_block());
+    assert!(rd.last_doc_in_previous_block == fresh.last_doc_in_previous_block);
+    assert!(rd.last_doc_in_previous_block == 0);
+    assert!(rd.byte_offset() == fresh.byte_offset() && rd.byte_offset() == 0);
+    assert!(rd.position_offset() == fresh.position_offset() && rd.position_offset() == 0);
+    assert!(rd.remaining_docs() == fresh.remaining_docs() && rd.remaining_docs() == doc_freq);
+    assert!(rd.block_info() == fresh.block_info());
+    // and it moves on like a fresh one
+    rd.advance();
+    let mut fresh = fresh;
+    fresh.advance();
+    assert!(rd.last_doc_in_block() == fresh.last_doc_in_block());
+    assert!(rd.last_doc_in_previous_block == fresh.last_doc_in_previous_block);
+    assert!(rd.byte_offset() == fresh.byte_offset());
+    assert!(rd.remaining_docs() == fresh.remaining_docs());
+    assert!(rd.block_info() == fresh.block_info());
+    kani::cover!(steps >= 2 && long_list, "reset after the reader left the first block");
+    kani::cover!(steps == 1 && !long_list);
+    std::mem::forget(rd);
+    std::mem::forget(fresh);
+}
+
+#[kani::proof]
+#[kani::unwind(6)]
+fn c07_skip_reset_positions() {
+    skip_reset(IndexRecordOption::WithFreqsAndPositions);
+}
+
+#[kani::proof]
+#[kani::unwind(6)]
+fn c07_skip_reset_basic() {
+    skip_reset(IndexRecordOption::Basic);
+}
+
 #[kani::proof]
 #[kani::unwind(4)]
 fn c07_skip_short_list() {
